@@ -312,9 +312,11 @@ def run(repo, tier):
     step(encprops.check_registers, rep, facts, 'R13.1.registers')
     step(check_base_offset, rep, facts)
     # the front end, decided on the dataflow of the line text / token lists / line objects / register operand (lexrules)
-    step(lexrules.check_lexer, rep, facts)
-    skips_blank = step(lexrules.check_reader, rep, facts)
-    step(lexrules.check_handover, rep, facts, bool(skips_blank))
+    lexer = step(lexrules.check_lexer, rep, facts)
+    reader = step(lexrules.check_reader, rep, facts)
+    step(lexrules.check_handover, rep, facts, bool(reader))
+    if lexer is not None and reader is not None:
+        step(lexrules.check_line_ends, rep, reader, lexer)
     step(lambda: lexrules.check_operand_spelling(rep, facts, numeric_literal_helpers(facts)))
 
     def summaries_say():
